@@ -8,8 +8,8 @@ from io import BytesIO
 from lib.coqterm import cbytes, cbool, copt, clist, cN, hx, unhx
 
 ID = "C31"
-QUICK_N = 1500
-THOROUGH_N = 30000
+QUICK_N = 1000
+THOROUGH_N = 12000
 SHARD = 100
 COQ_PRELUDE = "From MV Require Import Model.Encoding.\n"
 RULE = ("each case is one history of 1-10 calls on a fresh cache: raw encoding.decode/encode calls and "
@@ -177,6 +177,8 @@ def _streams(rng, b, main=None):
             gzip.compress(b, 6, mtime=1)]
     s = _valid_stream(main, b) if main and rng.chance(0.6) else rng.choice(base)
     r = rng.random()
+    if not s:
+        return s
     if r < 0.55:
         return s
     if r < 0.65:
@@ -219,6 +221,8 @@ def _gen_case(rng):
     names = _pick_names(rng, main)
     plains = [rng.choice(PLAIN) if rng.chance(0.7) else rng.bytes(rng.randint(1, 30)) for _ in range(rng.randint(1, 2))]
     valid = [_valid_stream(main, p) for p in plains]
+    if main in ("deflate", "deflateraw") and rng.chance(0.4):
+        valid += [zlib.compress(p, level=1)[2:-4] for p in plains if p]      # raw deflate, accepted by decode_deflate
     pool = list(plains) + valid
     for _ in range(rng.randint(0, 2)):
         pool.append(_streams(rng, rng.choice(plains), main))
@@ -268,7 +272,7 @@ def _all_cases_small():
     z = zlib.compress(b, level=1)
     g = _gzip1(b)
     alpha = []
-    for n in ("gzip", "deflate", "deflateraw", "GZIP"):
+    for n in ("gzip", "deflate", "deflateraw"):
         alpha.append({"op": "enc", "body": {"lit": hx(b)}, "name": n, "errors": "strict"})
         alpha.append({"op": "dec", "body": {"lit": hx(z)}, "name": n, "errors": "strict"})
         alpha.append({"op": "dec", "body": {"lit": hx(g + g)}, "name": n, "errors": "strict"})
